@@ -31,7 +31,7 @@ def seeded(ids, tier="quick", seeds=("1",)):
                 report.append({"id": name, "error": "patch does not apply: " + (p.stdout + p.stderr)[-300:]})
                 rc_all = 2
                 continue
-            env = dict(os.environ, VERIF_REPO_SRC=os.path.join(scratch, "src"))
+            env = dict(os.environ, VERIF_REPO_SRC=os.path.join(scratch, "src"), VERIF_OUT=os.path.join(scratch, "out"))
             row = {"id": name, "property": meta["property"], "checks": {}}
             caught = False
             for prop in props:
